@@ -5,6 +5,8 @@ import argen
 import debgen
 
 
+PROOF_FILES = ["C15.v", "C14w.v"]    # the witnesses for the .deb theorems live with C14's
+
 def entries_of(res):
     out = []
     for t in res.split("( ")[1:]:
